@@ -704,10 +704,66 @@ def c16(v, tier):
 
 
 # ------------------------------------------------------------------ C07 / C01 / C04 / C15 spot checks
+def silent_peer(tftpd, sb, single, ip):
+    """The peer falls silent after DATA 1 (download) / after the OACK (upload), timeout 1 s: the server retransmits, gives
+    up after a bounded number of tries and does not answer a datagram that arrives 10 s later."""
+    out = {"cfg": f"{'single' if single else 'multi'}{'-v6' if ':' in ip else ''}", "problems": []}
+    write(os.path.join(sb["srv"], "s.bin"), N.keyed_content("c07s", 512 * 3))
+    try:
+        srv = N.Server(tftpd, sb["srv"], single=single, ip=ip, logdir=sb["logs"]).start()
+    except Exception as e:
+        out["skipped"] = str(e)
+        return out
+    try:
+        fam = srv.family
+        sd, su = N._sock(fam, timeout=1.0), N._sock(fam, timeout=1.0)
+        trd, tru = N.Transfer(), N.Transfer()
+        sd.sendto(N.enc_req(N.RRQ, "s.bin", options=[("timeout", 1)]), srv.addr)
+        k, f, pd = N.recv(sd, trd)
+        if k != "OACK":
+            out["skipped"] = f"first reply {k}"
+            return out
+        sd.sendto(N.enc_ack(0), pd)
+        k, f, _ = N.recv(sd, trd)          # DATA 1
+        su.sendto(N.enc_req(N.WRQ, "silent_up.bin", options=[("timeout", 1)]), srv.addr)
+        k2, f2, pu = N.recv(su, tru)       # OACK, then silence
+        t0 = time.time()
+        retrans = 0
+        sd.settimeout(0.5)
+        while time.time() - t0 < 4.5:
+            kk, ff, _ = N.recv(sd, trd)
+            if kk == "DATA":
+                retrans += 1
+        out["retransmissions_in_4.5s"] = retrans
+        if retrans == 0:
+            out["problems"].append(("C07/net/silent-peer/no-retransmission", "DATA 1 was not retransmitted once within 4.5 s although timeout 1 s was negotiated"))
+        time.sleep(max(0.0, 10.0 - (time.time() - t0)))
+        while N.recv(sd, trd, timeout=0.05)[0] is not None:
+            pass
+        sd.sendto(N.enc_ack(1), pd)
+        kk, ff, _ = N.recv(sd, trd, timeout=1.5)
+        if kk == "DATA":
+            out["problems"].append(("C07/net/silent-peer/download-never-given-up", "10 s after the client fell silent (timeout 1 s, 6 tries) a late ACK 1 was still answered with DATA: the transfer had not ended"))
+        if k2 in ("OACK", "ACK"):
+            while N.recv(su, tru, timeout=0.05)[0] is not None:
+                pass
+            su.sendto(N.enc_data(1, b"late"), pu)
+            kk, ff, _ = N.recv(su, tru, timeout=1.5)
+            if kk == "ACK" and ff["blk"] == 1:
+                out["problems"].append(("C07/net/silent-peer/upload-never-given-up", "10 s after the client fell silent (timeout 1 s, 6 tries) a late DATA 1 was still acknowledged: the transfer had not ended"))
+        sd.close()
+        su.close()
+    finally:
+        srv.stop()
+    return out
+
+
 def c07(v, tier):
     ctx = Ctx("C07", tier)
     tftpd = ctx.bins["release"]["tftpd"]
     evals = 0
+    silent_pool = concurrent.futures.ThreadPoolExecutor(max_workers=4)
+    silent_jobs = [silent_pool.submit(silent_peer, tftpd, ctx.sandbox("c07s"), single, ip) for single in (False, True) for ip in ("127.0.0.1", "::1")]
     for single in (False, True):
         sb = ctx.sandbox("c07")
         content = N.keyed_content("c07", 512 * 5 + 10)   # 6 blocks
@@ -835,7 +891,15 @@ def c07(v, tier):
             log = srv.log_tail(5000)
             if "timed out" in log:
                 v.violation("C07/net/late-timeout", f"{cfg}: server log reports a timeout although every download completed: {log[-200:]!r}", {"engine": "net", "config": cfg})
-    return {"net_termination_cases": evals}, evals
+    silent = []
+    for j in silent_jobs:
+        r = j.result()
+        evals += 1
+        silent.append({k: r.get(k) for k in ("cfg", "retransmissions_in_4.5s", "skipped")})
+        for sig, what in r["problems"]:
+            v.violation(sig, f"{r['cfg']}: {what}", {"engine": "net", "config": r["cfg"], "scenario": "silent peer", "observed": r})
+    silent_pool.shutdown()
+    return {"net_termination_cases": evals, "silent_peer": silent}, evals
 
 
 def oack_lost_fallback(v, srv, name, content, blksize, pid):
